@@ -402,3 +402,8 @@ package otp
 //@   ensures[crypto] err == nil ==> cryptook(part(raw, ":", 1)) && cfg.Hash == hashof(part(part(raw, ":", 1)[5:], "-", 0)) &&
 //@ |   cfg.Digits == intval(part(part(raw, ":", 1)[5:], "-", 1))
 //@   ensures[raw] err == nil ==> cfg.Raw == raw && usable(cfg)
+
+//@ func otp.isDigit(c) (r)
+//@   ensures r <==> isdig(c)
+//@ func otp.isSessionToken(tok) (r)
+//@   ensures r <==> sessiontok(tok)
